@@ -73,6 +73,21 @@ func runBounded(cmd *exec.Cmd) error {
 	}
 }
 
+// dumpSaysUnverified reads dump-bundle's own verdict out of its listing (the tool exits 0 whatever it finds): a
+// complaint about the signatures section or about a response, or no exchange reported as signed at all. Only asked
+// about bundles signed "now" with a lifetime of hours, since the tool verifies at its own time.Now().
+func dumpSaysUnverified(out string) string {
+	for _, ln := range strings.Split(out, "\n") {
+		if strings.Contains(ln, "verification error") {
+			return "dump-bundle reports: " + strings.TrimSpace(ln)
+		}
+	}
+	if !strings.Contains(out, "[Signed with certificate #") {
+		return "dump-bundle lists no exchange as signed"
+	}
+	return ""
+}
+
 // toolCwd is set (and reset) by a caller that wants the next tool() call to run in another working directory.
 var toolCwd string
 
@@ -339,6 +354,20 @@ func verifySignedBundleAt(wbn []byte, which int, originals map[string][]byte, co
 }
 
 // ---------------------------------------------------------------- main
+
+// coveredCount is the number of exchanges of p whose URL is on host.
+func coveredCount(p *rbundle.Parsed, host string) int {
+	n := 0
+	if p == nil {
+		return 0
+	}
+	for _, ex := range p.Exchanges {
+		if u, err := url.Parse(ex.URL); err == nil && u.Host == host {
+			n++
+		}
+	}
+	return n
+}
 
 func main() { mon.Main("C20", run20) }
 
@@ -656,6 +685,9 @@ func run20(r *mon.Run) {
 				if d := tool("dump-bundle", nil, "-i", signed); d.rc != 0 {
 					so = "sign-sections:DUMP-REJECTS"
 					violation(key+":sign-sections-dump", "dump-bundle rejects the signed bundle: "+tail(d.out), sdet)
+				} else if bad := dumpSaysUnverified(d.out); wantDate == 0 && expireSecs >= 3600 && expireSecs < 604800 && coveredCount(parsed, "example.com") > 0 && bad != "" {
+					so = "sign-sections:DUMP-DOES-NOT-VERIFY"
+					violation(key+":sign-sections-dumpverdict", "bundle signed now by sign-bundle signatures-section: "+bad, sdet)
 				}
 			}
 			r.Eval(so)
@@ -979,8 +1011,13 @@ func run20(r *mon.Run) {
 			for k, m := range mats {
 				out := fmt.Sprintf("%s.signed%d", wbn, k)
 				date := int64(1600000000 + 1000*k)
-				res := tool("sign-bundle", passEnv, "signatures-section", "-i", in, "-o", out, "-certificate", cbors[k], "-privateKey", m.keys[(t+k)%2].path,
-					"-validityUrl", "https://"+m.host+"/validity", "-date", time.Unix(date, 0).UTC().Format(time.RFC3339), "-expire", "24h", "-miRecordSize", "4096")
+				sargs := []string{"signatures-section", "-i", in, "-o", out, "-certificate", cbors[k], "-privateKey", m.keys[(t+k)%2].path,
+					"-validityUrl", "https://" + m.host + "/validity", "-expire", "24h", "-miRecordSize", "4096"}
+				signedNow := t%2 == 1 // (every second case is signed at the tool's own "now", so that dump-bundle's verdict can be read as well)
+				if !signedNow {
+					sargs = append(sargs, "-date", time.Unix(date, 0).UTC().Format(time.RFC3339))
+				}
+				res := tool("sign-bundle", passEnv, sargs...)
 				if res.rc != 0 {
 					outcome = "two-origins:SIGN-FAILED"
 					violation(fmt.Sprintf("%s:sign%d", key, k), fmt.Sprintf("signing run %d (origin %s) of a two-origin bundle failed: %s", k, m.host, tail(res.out)), det)
@@ -989,7 +1026,11 @@ func run20(r *mon.Run) {
 				sb, _ := os.ReadFile(out)
 				// every signature added so far must still verify in this output
 				for j := 0; j <= k; j++ {
-					if bad := verifySignedBundleAt(sb, j, orig, mats[j].host, mats[j].certs[0].Raw, &mats[j].key.PublicKey, ver, int64(1600000000+1000*j), 86400); bad != "" {
+					wd := int64(1600000000 + 1000*j)
+					if signedNow {
+						wd = 0
+					}
+					if bad := verifySignedBundleAt(sb, j, orig, mats[j].host, mats[j].certs[0].Raw, &mats[j].key.PublicKey, ver, wd, 86400); bad != "" {
 						outcome = "two-origins:DOES-NOT-VERIFY"
 						violation(fmt.Sprintf("%s:verify%d-after%d", key, j, k), fmt.Sprintf("after signing run %d, the signature of origin %s (run %d) does not verify: %s", k, mats[j].host, j, bad), det)
 					}
@@ -997,6 +1038,9 @@ func run20(r *mon.Run) {
 				if d := tool("dump-bundle", nil, "-i", out); d.rc != 0 {
 					outcome = "two-origins:DUMP-REJECTS"
 					violation(fmt.Sprintf("%s:dump%d", key, k), "dump-bundle rejects the signed bundle: "+tail(d.out), det)
+				} else if bad := dumpSaysUnverified(d.out); signedNow && bad != "" {
+					outcome = "two-origins:DUMP-DOES-NOT-VERIFY"
+					violation(fmt.Sprintf("%s:dumpverdict%d", key, k), fmt.Sprintf("after signing run %d of a two-origin bundle (signed now, 24 h): %s", k, bad), det)
 				}
 				if in != wbn {
 					os.Remove(in)
@@ -1519,6 +1563,9 @@ func run20(r *mon.Run) {
 					if d := tool("dump-bundle", nil, "-i", signed); d.rc != 0 {
 						outcome = "sigsweep:DUMP-REJECTS"
 						violation(key+":dump", "dump-bundle rejects a bundle signed by sign-bundle signatures-section: "+tail(d.out), det)
+					} else if bad := dumpSaysUnverified(d.out); bad != "" {
+						outcome = "sigsweep:DUMP-DOES-NOT-VERIFY"
+						violation(key+":dumpverdict", "bundle signed now by sign-bundle signatures-section: "+bad, det)
 					}
 					if p, e := rbundle.Extract(sb); e == nil && p.Signatures != nil && len(p.Signatures.Vouched) > 0 {
 						shapes[sigShape(p.Signatures.Vouched[len(p.Signatures.Vouched)-1].Sig)]++
